@@ -148,6 +148,18 @@ func (c *Ctx) vtaCrossCheck(id string) {
 			if in[callee] {
 				continue
 			}
+			if callee.Synthetic != "" {
+				// promoted-method / bound-method wrapper: covered when what it forwards to is covered
+				cov := true
+				for _, ci := range an.Calls(callee) {
+					if g := an.StaticCallee(ci.Common()); g != nil && an.InModule(g) && len(g.Blocks) > 0 && !in[g] {
+						cov = false
+					}
+				}
+				if cov {
+					continue
+				}
+			}
 			// opaque by design: handler values, OnClose callbacks and Option closures applied by applyOpts
 			if e.Site != nil {
 				cc := e.Site.Common()
